@@ -158,6 +158,17 @@ def install(w):
             d = it.fresh_dyn("out_type")
             it.sadd(sym.tag(d.t) == sym.TAGS["other"])   # a user supplied callable
             return d
+        if attr == "_value_lookup":
+            # GraphQLEnumType._value_lookup (cached_property): {python value -> member name}.
+            # ASSUMED (the dict itself is not modelled): every name stored in it is a key of
+            # self.values - which is what its body does (`lookup[value] = name` for name in self.values)
+            it.guard(G.tkind(t) == K["ENUM"], AttributeError, node, "SAFE-Attr")
+            w.trusted_used.add("GraphQLEnumType._value_lookup maps hashable python values to names of "
+                               "self.values (its own loop; the dict is not modelled): a lookup raises KeyError, "
+                               "TypeError (unhashable key) or gives a member name")
+            o = sym.VOpaque("_value_lookup")
+            o.enum_lookup = v
+            return o
         if attr in TY_ATTRS:
             kinds, spec = TY_ATTRS[attr]
             it.guard(sor(*[G.tkind(t) == k for k in kinds]), AttributeError, node, "SAFE-Attr")
@@ -171,6 +182,28 @@ def install(w):
             return r
         return prev_type_attr(it, v, attr, node)
     w.type_attr = type_attr
+
+    prev_index_el = w.index_ext
+
+    def index_enum_lookup(it, v, idx, node):
+        if isinstance(v, sym.VOpaque) and hasattr(v, "enum_lookup"):
+            from pyvc.interp import _src
+            from pyvc.refs import OMAP_IDX, OMAP_LEN
+            text = _src(node)
+            it.note_safe("SAFE-Key", text, getattr(node, "lineno", 0))
+            c = it.choose(3, "enum value lookup")
+            if c == 1:
+                it.throw(KeyError, node, "SAFE-Key", text)
+            if c == 2:
+                it.throw(TypeError, node, "SAFE-Type", text)
+            name = it.fresh_str("member_name")
+            m = refs.read_attr(it, "Ty", v.enum_lookup.t, G.TyS, "values", ("omap", "ref:GraphQLEnumValue"))
+            kv = sym.as_view(name)
+            i = OMAP_IDX(m.t, kv.arr, kv.hi)
+            it.assume(z3.And(0 <= i, i < OMAP_LEN(m.t)))
+            return name
+        return prev_index_el(it, v, idx, node)
+    w.index_ext = index_enum_lookup
 
     def f_instance_of_ref(it, v, name):
         from pyvc.refs import VRef
